@@ -337,4 +337,25 @@ PROPS = {
         'partial': ['only the symbol-table side (no symbol-table panic, scopes balanced) is a theorem; absence of panics in the translation '
                     'functions is tested, with the listed known panic classes'],
     },
+    'C17': {
+        'coq': 'Props/C17.v',
+        'families': [
+            {'name': 'meta', 'args': {'quick': ['--random', 6000], 'thorough': ['--random', 300000]},
+             'shards': {'quick': 16, 'thorough': 16}, 'driver_args': ['--nodedupe']},
+            {'name': 'lex', 'args': {'quick': ['--lexemes', 1500], 'thorough': ['--lexemes', 50000]},
+             'shards': {'quick': 16, 'thorough': 16}, 'driver_args': []},
+            {'name': 'symtab', 'args': {'quick': ['--exhaustive', 5, '--random', 400], 'thorough': ['--exhaustive', 7, '--random', 20000]},
+             'shards': {'quick': 16, 'thorough': 16}, 'driver_args': ['--nodedupe']},
+        ],
+        'exhaustive': {'quick': False, 'thorough': False},
+        'rule': 'generated programs of 2-10 top-level statements nested to depth 0-3, half of them with injected faults (statements deleted, '
+                'duplicated, swapped): each x 2 re-layouts (rich trivia with comments and line breaks; minimal spacing) x 1 injective '
+                'renaming of all user identifiers (three naming schemes, avoiding keywords, built-ins, standard gate names, time units) x '
+                'every prefix at a top-level statement boundary x a second run of the same text; compared: graph (Debug rendering), '
+                'symbol table (names and types, in id order), diagnostic kinds in order (for prefixes also positions); the lex and '
+                'symtab families tie the two models the theorems are about; non-trivial = every relation checked',
+        'trusted_base': ['Model/Lexed.v (to_input), Model/SymTab.v, Model/Graph.v', 'harness renaming through the implementation lexer (LexedStr)'],
+        'assumptions': ['identifier tokens inside pragma and annotation lines are not renamed (they are one token)'],
+        'partial': ['whole-analyser invariance: implementation oracle only'],
+    },
 }
